@@ -190,8 +190,8 @@ def replay_layer(rep, prop, tier):
 
 
 FAMILIES = {
-    "C03": ["canon", "gc", "gc", "npt", "hmc", "canon_noreset", "npt_noreset", "gc"],
-    "C04": ["canon", "gc", "npt", "hmc"],
+    "C03": ["canon", "gc", "gc", "npt", "hmc", "canon_noreset", "npt_noreset", "gc", "gcmix"],
+    "C04": ["canon", "gc", "npt", "hmc", "gcmix"],
     "C05": ["gc", "gc", "gc", "gcdrain"],
     "C11": ["canon", "canon", "gc", "npt", "gcdrain"],
     "C12": ["canon", "canon", "hmc", "npt", "gc", "canon_noreset"],
@@ -223,6 +223,11 @@ def engine_check(prop, tier, level="model_checking", n_quick=240, n_thorough=240
     for e in errs[:3]:
         rep.error(f"harness failed to build/record scenario seed={e['seed']} family={e['family']}: {e['harness_error']}")
     good = [t for t in traces if "harness_error" not in t and len(t["ev"]) > 1]
+    # a scenario whose run raises before anything happened exercises nothing: that is a failure of the scenario generator
+    # (e.g. a constraint built with arguments ASE rejects), not a verdict -- and must not pass silently
+    stillborn = [t for t in traces if "harness_error" not in t and len(t["ev"]) <= 1 and t["ev"] and t["ev"][0]["a"] == "raise"]
+    for t in stillborn[:3]:
+        rep.error(f"scenario seed={t['setup'].get('scenario_seed')} family={t['setup'].get('family')} raised before its first trial: {t['ev'][0].get('exc')}")
     # the specialised composite and its guarantees (C11: no particle displaced twice, count reported; C05: one direction,
     # no label deleted twice) are owed to every composite built with + and * from moves of one kind (Algebra.tla's Meaning):
     # the scenario grammar builds all its composites that way except the entry named "swap" (a hand-made generic one)
